@@ -734,3 +734,57 @@ def simplifiers(op: dict):
             yield {**op, 'traj': {**t, 'unset': []}}
     if op.get('cache') not in (None, 2048):
         yield {**op, 'cache': 2048}
+
+
+def required_probes(prop, tier):
+    common = ['read_from_file', 'close', 'fsck']
+    return common + {
+        'C03': ['create_associated', 'open_r', 'save', 'new_species_refused'],
+        'C07': ['read_from_file_in_write_session', 'old_index_read_after_add_in_append', 'get_at_len',
+                'inmem_overflow_refused', 'iterate', 'open_a'],
+        'C08': ['lookup_present', 'lookup_absent', 'lookup_while_stale', 'lookup_merged', 'open_a'],
+        'C09': ['merge_base', 'merge_assoc', 'merge_pattern', 'merge_seam_read', 'open_merged',
+                'open_merged_with_assoc', 'lookup_merged', 'append_merged_refused'],
+        'C10': ['reject_required_none', 'reject_extra_fieldset', 'reject_missing_fieldset',
+                'reject_id_on_unidentified', 'reject_noid_on_identified', 'merge_sweeps', 'mfault_error',
+                'mfault_crash', 'mrefuse_mixed_identification', 'mrefuse_differing_fieldsets',
+                'mrefuse_existing_output', 'mrefuse_missing_input'],
+    }[prop]
+
+
+_RULES = {
+    'C03': 'non-trivial = at least one read served from a file AND a session boundary (reopen / after-close audit) '
+           'or an eviction-driven reload inside a write session',
+    'C07': 'non-trivial = at least one read served from a file AND a session boundary or an eviction-driven reload',
+    'C08': 'non-trivial = as C07 (lookups are compared on every identified store)',
+    'C09': 'non-trivial = at least one read served from a file of a merged or reopened store',
+    'C10': 'non-trivial = at least one rejected addition, refused merge or injected merge fault fired inside an operation',
+}
+
+
+def evidence_info(prop):
+    return {
+        'level': 'fault_enumeration' if prop == 'C10' else 'exploration',
+        'rule': 'one case = one seeded history of store operations (create/add/get/iterate/lookup/sync/close/reopen/'
+                'save/create_associated/merge...) with swarm-drawn content, layout, identifiers and cache sizes, '
+                'executed against the real TrajectoryStore and a list/dict reference model; distinct = distinct '
+                '(operation kind, outcome, fault) sequences; ' + _RULES[prop] + (
+                    '. For each merge_sweep operation every intercepted file-system / Dataset step of that merge is '
+                    'enumerated with an injected error and a simulated crash (faults_fired counts them).'
+                    if prop == 'C10' else ''),
+        'time_note': 'AEIC has no timers; simulated time is a logical clock that only stamps file metadata',
+        'components': {
+            'real': ['AEIC TrajectoryStore / Trajectory / FieldSet code', 'netCDF4 + HDF5 on real files in a per-run '
+                     'sandbox under /dev/shm (variable-level I/O is real and un-faulted)', 'cachetools LRU cache'],
+            'simulated': ['operation order, arguments and data content (seeded generator)', 'cache capacity knob',
+                          'wall clock (store.datetime shim)', 'garbage-collection timing (automatic GC off, collection '
+                          'after every operation)'] + (
+                ['os.mkdir/rename/... , open and netCDF4.Dataset create/close (pass-through + injected error / crash; '
+                 'buffered metadata file with torn / lost / full outcomes; index file truncated / removed / intact after '
+                 'a crash)'] if prop == 'C10' else []),
+        },
+        'fault_kinds': ['error', 'crash', 'crash_torn', 'crash_lost', 'crash_truncated', 'crash_removed'] if prop == 'C10' else [],
+        'assumptions': ['one session per file at a time, all driven from one thread',
+                        'NaN, zero-length trajectories, empty species sets and caches smaller than one trajectory are not generated',
+                        'HDF5 internals are not faulted; process death without close() is not simulated'],
+    }
